@@ -16,8 +16,10 @@ package main
 //	                        represents the same classes, has the same Length and
 //	                        (total order, same members) the same Values()
 //
-// runC03Set is called by the C03 runner; "C03set" is a stand-alone runner id for
-// testing this slice alone.
+// runC03SetBudget is called by the C03 runner (full=false in the quick tier: smaller
+// exhaustive scopes plus sampling, ~4 s; full=true in the thorough tier: the
+// complete small scopes, ~100 s); "C03set" is a stand-alone runner id for
+// debugging this slice alone at full scope.
 
 import (
 	"fmt"
@@ -619,8 +621,21 @@ func c03PermCase(ctx *Ctx, rs *c03Rules, input []int) {
 	})
 }
 
-func runC03Set(ctx *Ctx) {
+func runC03Set(ctx *Ctx) { runC03SetBudget(ctx, true) }
+
+// runC03SetBudget: full = the complete exhaustive scopes (E1 length<=4 for four
+// rules, E2 length<=3 for three rules and length 4 for m3e6 in the thorough tier,
+// E2b, E3 length<=4); !full = E1 length<=4 for m3e6 only and length<=3 elsewhere,
+// E2 length<=3 for m3e6 only and length<=2 elsewhere, no E2b, E3 length<=3,
+// fewer random histories.
+func runC03SetBudget(ctx *Ctx, full bool) {
 	var scope []string
+	pick := func(fullN, quickN int) int {
+		if full {
+			return fullN
+		}
+		return quickN
+	}
 	for _, rs := range c03AllRules {
 		v3 := rs.small[:3]
 		// E1: one set, every call kind interleaved, 4 values, all histories of length <= 4
@@ -631,10 +646,14 @@ func runC03Set(ctx *Ctx) {
 			}
 			alpha = append(alpha, c03Op{k: "len", a: 0}, c03Op{k: "vals", a: 0})
 			n := 0
-			for l := 0; l <= 4; l++ {
+			e1Len := pick(4, 3)
+			if rs.name == "m3e6" {
+				e1Len = 4
+			}
+			for l := 0; l <= e1Len; l++ {
 				n += c03Enum(alpha, l, func(h []c03Op) { c03Case(ctx, rs, 1, append(h, c03Op{k: "vals", a: 0}), "enum1") })
 			}
-			scope = append(scope, fmt.Sprintf("%s: all %d histories of length<=4 of one set over %d calls (add/remove/has x values %v, length, values)", rs.name, n, len(alpha), rs.small))
+			scope = append(scope, fmt.Sprintf("%s: all %d histories of length<=%d of one set over %d calls (add/remove/has x values %v, length, values)", rs.name, n, e1Len, len(alpha), rs.small))
 		}
 		// E2: two sets, all mutators incl. copy and the four algebra calls, 3 values
 		if rs.name == "m3e6" || rs.name == "ordTies" || rs.name == "m2e12" {
@@ -650,9 +669,12 @@ func runC03Set(ctx *Ctx) {
 					alpha = append(alpha, c03Op{k: k, a: d, b: 0, c: 1}, c03Op{k: k, a: d, b: 1, c: 0})
 				}
 			}
-			maxLen := 3
+			maxLen := pick(3, 2)
 			if rs.name == "m3e6" {
-				maxLen = ctx.N(3, 4)
+				maxLen = 3
+				if full {
+					maxLen = ctx.N(3, 4)
+				}
 			}
 			obs := c03Observe(2, v3)
 			n := 0
@@ -660,7 +682,7 @@ func runC03Set(ctx *Ctx) {
 				n += c03Enum(alpha, l, func(h []c03Op) { c03Case(ctx, rs, 2, append(h, obs...), "enum2") })
 			}
 			scope = append(scope, fmt.Sprintf("%s: all %d histories of length<=%d of two sets over %d mutating calls (add/remove x values %v, copy, union/intersection/subtract/symmetricDifference), each followed by every query", rs.name, n, maxLen, len(alpha), v3))
-			if maxLen < 4 && rs.name != "m2e12" {
+			if full && maxLen < 4 && rs.name != "m2e12" {
 				// length 4 over a smaller alphabet
 				beta := []c03Op{}
 				for _, v := range v3 {
@@ -691,12 +713,13 @@ func runC03Set(ctx *Ctx) {
 			alpha = append(alpha, c03Op{k: "copy", a: 1, b: 0}, c03Op{k: "copy", a: 0, b: 1})
 			obs := c03Observe(2, []int{0, 6, 8})
 			n := 0
-			for l := 0; l <= 4; l++ {
+			e3Len := pick(4, 3)
+			for l := 0; l <= e3Len; l++ {
 				n += c03Enum(alpha, l, func(h []c03Op) {
 					c03Case(ctx, rs, 2, append(append(append([]c03Op(nil), prefix...), h...), obs...), "enum3")
 				})
 			}
-			scope = append(scope, fmt.Sprintf("%s: set 0 = {0,2,4} in one bucket, then all %d histories of length<=4 of two sets over %d calls (add 6/8/12, remove 0/6, copy either way), each followed by every query", rs.name, n, len(alpha)))
+			scope = append(scope, fmt.Sprintf("%s: set 0 = {0,2,4} in one bucket, then all %d histories of length<=%d of two sets over %d calls (add 6/8/12, remove 0/6, copy either way), each followed by every query", rs.name, n, e3Len, len(alpha)))
 		}
 		// P: all permutations of constructor inputs (<= 6 inputs)
 		if rs.class != nil {
@@ -739,7 +762,7 @@ func runC03Set(ctx *Ctx) {
 			}
 		}
 		// R: random histories on two to four sets
-		nh, maxLen := ctx.N(2500, 25000), ctx.N(30, 200)
+		nh, maxLen := pick(ctx.N(2500, 25000), 700), ctx.N(30, 200)
 		for k := 0; k < nh; k++ {
 			l := 1 + ctx.R.Intn(maxLen)
 			if ctx.R.Intn(3) == 0 {
